@@ -53,4 +53,13 @@ theorem isEmpty_iff_forall_not_mem (s : List V) : s.isEmpty = true ↔ ∀ a, a 
     simp only [List.isEmpty_cons, Bool.false_eq_true, false_iff]
     intro h; exact h b (by simp)
 
+theorem diff_self (s : List V) : diff s s = [] := by
+  simp [diff]
+
+theorem inter_self (s : List V) : inter s s = s := by
+  simp [inter]
+
+theorem union_self (s : List V) : union s s = s := by
+  simp [union]
+
 end PyPred
